@@ -1,249 +1,142 @@
-(* C44: property statements -- only `exact` of proved lemmas and Print Assumptions *)
+(* C44: property statements -- conjunctions of the obligations of C44Statements.v, `exact` of proved lemmas,
+   Print Assumptions *)
 From Coq Require Import Reals List.
 From VLib Require Import RealExtra.
-From C44 Require Import C44Spec C44_gen C44Statements C44ProofsRot C44ProofsGen C44ProofsOrth C44ProofsHooke.
+From C44 Require Import C44Spec C44_gen C44Statements C44ProofsA C44ProofsB C44ProofsOrth.
 
-Theorem C44_fromrot_1_index : fromrot_1_index_ok.
-Proof. exact fromrot_1_index_proof. Qed.
-Print Assumptions C44_fromrot_1_index.
+Theorem C44_fromRotationMatrix_is_the_rotation_operator :
+  fromrot_1_index_ok /\
+  fromrot_1_acts_ok /\
+  fromrot_2_index_ok /\
+  fromrot_2_acts_ok /\
+  fromrot_3_index_ok /\
+  fromrot_3_acts_ok.
+Proof.
+  exact (conj fromrot_1_index_proof (conj fromrot_1_acts_proof (conj fromrot_2_index_proof (conj fromrot_2_acts_proof (conj fromrot_3_index_proof fromrot_3_acts_proof))))).
+Qed.
+Print Assumptions C44_fromRotationMatrix_is_the_rotation_operator.
 
-Theorem C44_fromrot_1_acts : fromrot_1_acts_ok.
-Proof. exact fromrot_1_acts_proof. Qed.
-Print Assumptions C44_fromrot_1_acts.
+Theorem C44_change_basis_stensor_is_QtSQ :
+  cb2_1_meaning_ok /\
+  app_1_meaning_ok /\
+  cb2_2_meaning_ok /\
+  app_2_meaning_ok /\
+  cb2_3_meaning_ok /\
+  app_3_meaning_ok.
+Proof.
+  exact (conj cb2_1_meaning_proof (conj app_1_meaning_proof (conj cb2_2_meaning_proof (conj app_2_meaning_proof (conj cb2_3_meaning_proof app_3_meaning_proof))))).
+Qed.
+Print Assumptions C44_change_basis_stensor_is_QtSQ.
 
-Theorem C44_cb2_1_meaning : cb2_1_meaning_ok.
-Proof. exact cb2_1_meaning_proof. Qed.
-Print Assumptions C44_cb2_1_meaning.
+Theorem C44_change_basis_st2tost2_index_notation :
+  cb4_1_index_ok /\
+  cb4_2_index_ok.
+Proof.
+  exact (conj cb4_1_index_proof cb4_2_index_proof).
+Qed.
+Print Assumptions C44_change_basis_st2tost2_index_notation.
 
-Theorem C44_cb4_1_index : cb4_1_index_ok.
-Proof. exact cb4_1_index_proof. Qed.
-Print Assumptions C44_cb4_1_index.
+Theorem C44_emitted_rotateGradients_is_QtEQ :
+  gen_rotg_tri_meaning_ok /\
+  gen_rotg_pstrain_meaning_ok /\
+  gen_rotg_gps_meaning_ok /\
+  gen_rotg_axis_meaning_ok /\
+  gen_rotg_pstress_meaning_ok /\
+  gen_rotg_agpstrain_meaning_ok.
+Proof.
+  exact (conj gen_rotg_tri_meaning_proof (conj gen_rotg_pstrain_meaning_proof (conj gen_rotg_gps_meaning_proof (conj gen_rotg_axis_meaning_proof (conj gen_rotg_pstress_meaning_proof gen_rotg_agpstrain_meaning_proof))))).
+Qed.
+Print Assumptions C44_emitted_rotateGradients_is_QtEQ.
 
-Theorem C44_app_1_meaning : app_1_meaning_ok.
-Proof. exact app_1_meaning_proof. Qed.
-Print Assumptions C44_app_1_meaning.
+Theorem C44_emitted_rotateThermodynamicForces_is_QSQt :
+  gen_rotf_tri_meaning_ok /\
+  gen_rotf_pstrain_meaning_ok /\
+  gen_rotf_gps_meaning_ok /\
+  gen_rotf_axis_meaning_ok /\
+  gen_rotf_pstress_meaning_ok /\
+  gen_rotf_agpstrain_meaning_ok.
+Proof.
+  exact (conj gen_rotf_tri_meaning_proof (conj gen_rotf_pstrain_meaning_proof (conj gen_rotf_gps_meaning_proof (conj gen_rotf_axis_meaning_proof (conj gen_rotf_pstress_meaning_proof gen_rotf_agpstrain_meaning_proof))))).
+Qed.
+Print Assumptions C44_emitted_rotateThermodynamicForces_is_QSQt.
 
-Theorem C44_fromrot_2_index : fromrot_2_index_ok.
-Proof. exact fromrot_2_index_proof. Qed.
-Print Assumptions C44_fromrot_2_index.
+Theorem C44_emitted_rotateTangentOperatorBlocks_index_notation :
+  gen_rotk_tri_is_change_basis_ok /\
+  gen_rotk_pstrain_index_ok /\
+  gen_rotk_gps_same_as_pstrain_ok /\
+  gen_rotk_axis_same_as_pstrain_ok /\
+  gen_rotk_pstress_same_as_pstrain_ok /\
+  gen_rotk_agpstrain_index_ok.
+Proof.
+  exact (conj gen_rotk_tri_is_change_basis_proof (conj gen_rotk_pstrain_index_proof (conj gen_rotk_gps_same_as_pstrain_proof (conj gen_rotk_axis_same_as_pstrain_proof (conj gen_rotk_pstress_same_as_pstrain_proof gen_rotk_agpstrain_index_proof))))).
+Qed.
+Print Assumptions C44_emitted_rotateTangentOperatorBlocks_index_notation.
 
-Theorem C44_fromrot_2_acts : fromrot_2_acts_ok.
-Proof. exact fromrot_2_acts_proof. Qed.
-Print Assumptions C44_fromrot_2_acts.
+Theorem C44_emitted_rotations_give_the_global_response :
+  gen_pstrain_global_response_ok /\
+  gen_axis_global_response_ok /\
+  gen_agpstrain_global_response_ok.
+Proof.
+  exact (conj gen_pstrain_global_response_proof (conj gen_axis_global_response_proof gen_agpstrain_global_response_proof)).
+Qed.
+Print Assumptions C44_emitted_rotations_give_the_global_response.
 
-Theorem C44_cb2_2_meaning : cb2_2_meaning_ok.
-Proof. exact cb2_2_meaning_proof. Qed.
-Print Assumptions C44_cb2_2_meaning.
+Theorem C44_emitted_rotations_round_trip :
+  gen_pstrain_round_trip_ok.
+Proof.
+  exact gen_pstrain_round_trip_proof.
+Qed.
+Print Assumptions C44_emitted_rotations_round_trip.
 
-Theorem C44_cb4_2_index : cb4_2_index_ok.
-Proof. exact cb4_2_index_proof. Qed.
-Print Assumptions C44_cb4_2_index.
+Theorem C44_emitted_rotations_offsets_single_gradient_arrays :
+  gen_arrg_pstrain_meaning_ok /\
+  gen_arrf_pstrain_meaning_ok /\
+  gen_arrk_pstrain_index_ok /\
+  tg_rotg_pstrain_meaning_ok /\
+  tg_rotf_pstrain_meaning_ok.
+Proof.
+  exact (conj gen_arrg_pstrain_meaning_proof (conj gen_arrf_pstrain_meaning_proof (conj gen_arrk_pstrain_index_proof (conj tg_rotg_pstrain_meaning_proof tg_rotf_pstrain_meaning_proof)))).
+Qed.
+Print Assumptions C44_emitted_rotations_offsets_single_gradient_arrays.
 
-Theorem C44_app_2_meaning : app_2_meaning_ok.
-Proof. exact app_2_meaning_proof. Qed.
-Print Assumptions C44_app_2_meaning.
+Theorem C44_isotropic_stiffness_is_hooke :
+  isoD_tri_meaning_ok /\
+  isosig_tri_meaning_ok.
+Proof.
+  exact (conj isoD_tri_meaning_proof isosig_tri_meaning_proof).
+Qed.
+Print Assumptions C44_isotropic_stiffness_is_hooke.
 
-Theorem C44_fromrot_3_index : fromrot_3_index_ok.
-Proof. exact fromrot_3_index_proof. Qed.
-Print Assumptions C44_fromrot_3_index.
+Theorem C44_hooke_hypothesis_consistency :
+  isosig_pstrain_is_3D_restricted_ok /\
+  isosig_gps_is_3D_restricted_ok /\
+  isosig_axis_is_3D_restricted_ok /\
+  isosig_pstress_is_3D_restricted_ok /\
+  isosig_agpstrain_is_3D_restricted_ok /\
+  ortsig_pstrain_is_3D_restricted_ok /\
+  ortsig_gps_is_3D_restricted_ok /\
+  ortsig_axis_is_3D_restricted_ok /\
+  ortsig_agpstrain_is_3D_restricted_ok.
+Proof.
+  exact (conj isosig_pstrain_is_3D_restricted_proof (conj isosig_gps_is_3D_restricted_proof (conj isosig_axis_is_3D_restricted_proof (conj isosig_pstress_is_3D_restricted_proof (conj isosig_agpstrain_is_3D_restricted_proof (conj ortsig_pstrain_is_3D_restricted_proof (conj ortsig_gps_is_3D_restricted_proof (conj ortsig_axis_is_3D_restricted_proof ortsig_agpstrain_is_3D_restricted_proof)))))))).
+Qed.
+Print Assumptions C44_hooke_hypothesis_consistency.
 
-Theorem C44_fromrot_3_acts : fromrot_3_acts_ok.
-Proof. exact fromrot_3_acts_proof. Qed.
-Print Assumptions C44_fromrot_3_acts.
+Theorem C44_plane_stress_szz_zero_and_condensation :
+  isosig_pstress_alt_szz_ok /\
+  isosig_pstress_alt_is_3D_condensed_ok /\
+  ortsig_pstress_alt_szz_ok /\
+  ortsig_pstress_alt_pipe_szz_ok.
+Proof.
+  exact (conj isosig_pstress_alt_szz_proof (conj isosig_pstress_alt_is_3D_condensed_proof (conj ortsig_pstress_alt_szz_proof ortsig_pstress_alt_pipe_szz_proof))).
+Qed.
+Print Assumptions C44_plane_stress_szz_zero_and_condensation.
 
-Theorem C44_cb2_3_meaning : cb2_3_meaning_ok.
-Proof. exact cb2_3_meaning_proof. Qed.
-Print Assumptions C44_cb2_3_meaning.
-
-Theorem C44_app_3_meaning : app_3_meaning_ok.
-Proof. exact app_3_meaning_proof. Qed.
-Print Assumptions C44_app_3_meaning.
-
-Theorem C44_gen_rotg_tri_meaning : gen_rotg_tri_meaning_ok.
-Proof. exact gen_rotg_tri_meaning_proof. Qed.
-Print Assumptions C44_gen_rotg_tri_meaning.
-
-Theorem C44_gen_rotf_tri_meaning : gen_rotf_tri_meaning_ok.
-Proof. exact gen_rotf_tri_meaning_proof. Qed.
-Print Assumptions C44_gen_rotf_tri_meaning.
-
-Theorem C44_gen_rotk_tri_is_change_basis : gen_rotk_tri_is_change_basis_ok.
-Proof. exact gen_rotk_tri_is_change_basis_proof. Qed.
-Print Assumptions C44_gen_rotk_tri_is_change_basis.
-
-Theorem C44_gen_rotg_pstrain_meaning : gen_rotg_pstrain_meaning_ok.
-Proof. exact gen_rotg_pstrain_meaning_proof. Qed.
-Print Assumptions C44_gen_rotg_pstrain_meaning.
-
-Theorem C44_gen_rotf_pstrain_meaning : gen_rotf_pstrain_meaning_ok.
-Proof. exact gen_rotf_pstrain_meaning_proof. Qed.
-Print Assumptions C44_gen_rotf_pstrain_meaning.
-
-Theorem C44_gen_rotk_pstrain_index : gen_rotk_pstrain_index_ok.
-Proof. exact gen_rotk_pstrain_index_proof. Qed.
-Print Assumptions C44_gen_rotk_pstrain_index.
-
-Theorem C44_gen_rotg_gps_meaning : gen_rotg_gps_meaning_ok.
-Proof. exact gen_rotg_gps_meaning_proof. Qed.
-Print Assumptions C44_gen_rotg_gps_meaning.
-
-Theorem C44_gen_rotf_gps_meaning : gen_rotf_gps_meaning_ok.
-Proof. exact gen_rotf_gps_meaning_proof. Qed.
-Print Assumptions C44_gen_rotf_gps_meaning.
-
-Theorem C44_gen_rotk_gps_index : gen_rotk_gps_index_ok.
-Proof. exact gen_rotk_gps_index_proof. Qed.
-Print Assumptions C44_gen_rotk_gps_index.
-
-Theorem C44_gen_rotg_axis_meaning : gen_rotg_axis_meaning_ok.
-Proof. exact gen_rotg_axis_meaning_proof. Qed.
-Print Assumptions C44_gen_rotg_axis_meaning.
-
-Theorem C44_gen_rotf_axis_meaning : gen_rotf_axis_meaning_ok.
-Proof. exact gen_rotf_axis_meaning_proof. Qed.
-Print Assumptions C44_gen_rotf_axis_meaning.
-
-Theorem C44_gen_rotk_axis_index : gen_rotk_axis_index_ok.
-Proof. exact gen_rotk_axis_index_proof. Qed.
-Print Assumptions C44_gen_rotk_axis_index.
-
-Theorem C44_gen_rotg_pstress_meaning : gen_rotg_pstress_meaning_ok.
-Proof. exact gen_rotg_pstress_meaning_proof. Qed.
-Print Assumptions C44_gen_rotg_pstress_meaning.
-
-Theorem C44_gen_rotf_pstress_meaning : gen_rotf_pstress_meaning_ok.
-Proof. exact gen_rotf_pstress_meaning_proof. Qed.
-Print Assumptions C44_gen_rotf_pstress_meaning.
-
-Theorem C44_gen_rotk_pstress_index : gen_rotk_pstress_index_ok.
-Proof. exact gen_rotk_pstress_index_proof. Qed.
-Print Assumptions C44_gen_rotk_pstress_index.
-
-Theorem C44_gen_rotg_agpstrain_meaning : gen_rotg_agpstrain_meaning_ok.
-Proof. exact gen_rotg_agpstrain_meaning_proof. Qed.
-Print Assumptions C44_gen_rotg_agpstrain_meaning.
-
-Theorem C44_gen_rotf_agpstrain_meaning : gen_rotf_agpstrain_meaning_ok.
-Proof. exact gen_rotf_agpstrain_meaning_proof. Qed.
-Print Assumptions C44_gen_rotf_agpstrain_meaning.
-
-Theorem C44_gen_rotk_agpstrain_index : gen_rotk_agpstrain_index_ok.
-Proof. exact gen_rotk_agpstrain_index_proof. Qed.
-Print Assumptions C44_gen_rotk_agpstrain_index.
-
-Theorem C44_gen_pstrain_global_response : gen_pstrain_global_response_ok.
-Proof. exact gen_pstrain_global_response_proof. Qed.
-Print Assumptions C44_gen_pstrain_global_response.
-
-Theorem C44_gen_axis_global_response : gen_axis_global_response_ok.
-Proof. exact gen_axis_global_response_proof. Qed.
-Print Assumptions C44_gen_axis_global_response.
-
-Theorem C44_gen_agpstrain_global_response : gen_agpstrain_global_response_ok.
-Proof. exact gen_agpstrain_global_response_proof. Qed.
-Print Assumptions C44_gen_agpstrain_global_response.
-
-Theorem C44_gen_arrg_pstrain_meaning : gen_arrg_pstrain_meaning_ok.
-Proof. exact gen_arrg_pstrain_meaning_proof. Qed.
-Print Assumptions C44_gen_arrg_pstrain_meaning.
-
-Theorem C44_gen_arrf_pstrain_meaning : gen_arrf_pstrain_meaning_ok.
-Proof. exact gen_arrf_pstrain_meaning_proof. Qed.
-Print Assumptions C44_gen_arrf_pstrain_meaning.
-
-Theorem C44_gen_arrk_pstrain_index : gen_arrk_pstrain_index_ok.
-Proof. exact gen_arrk_pstrain_index_proof. Qed.
-Print Assumptions C44_gen_arrk_pstrain_index.
-
-Theorem C44_tg_rotg_pstrain_meaning : tg_rotg_pstrain_meaning_ok.
-Proof. exact tg_rotg_pstrain_meaning_proof. Qed.
-Print Assumptions C44_tg_rotg_pstrain_meaning.
-
-Theorem C44_tg_rotf_pstrain_meaning : tg_rotf_pstrain_meaning_ok.
-Proof. exact tg_rotf_pstrain_meaning_proof. Qed.
-Print Assumptions C44_tg_rotf_pstrain_meaning.
-
-Theorem C44_tg_rotk_pstrain_index : tg_rotk_pstrain_index_ok.
-Proof. exact tg_rotk_pstrain_index_proof. Qed.
-Print Assumptions C44_tg_rotk_pstrain_index.
-
-Theorem C44_gen_tri_round_trip : gen_tri_round_trip_ok.
-Proof. exact gen_tri_round_trip_proof. Qed.
-Print Assumptions C44_gen_tri_round_trip.
-
-Theorem C44_gen_pstrain_round_trip : gen_pstrain_round_trip_ok.
-Proof. exact gen_pstrain_round_trip_proof. Qed.
-Print Assumptions C44_gen_pstrain_round_trip.
-
-Theorem C44_hooke_tri_isotropic : hooke_tri_isotropic_ok.
-Proof. exact hooke_tri_isotropic_proof. Qed.
-Print Assumptions C44_hooke_tri_isotropic.
-
-Theorem C44_hooke_pstrain_isotropic_in_plane : hooke_pstrain_isotropic_in_plane_ok.
-Proof. exact hooke_pstrain_isotropic_in_plane_proof. Qed.
-Print Assumptions C44_hooke_pstrain_isotropic_in_plane.
-
-Theorem C44_hooke_pstress_alt_isotropic_in_plane : hooke_pstress_alt_isotropic_in_plane_ok.
-Proof. exact hooke_pstress_alt_isotropic_in_plane_proof. Qed.
-Print Assumptions C44_hooke_pstress_alt_isotropic_in_plane.
-
-Theorem C44_isoD_tri_meaning : isoD_tri_meaning_ok.
-Proof. exact isoD_tri_meaning_proof. Qed.
-Print Assumptions C44_isoD_tri_meaning.
-
-Theorem C44_isosig_tri_meaning : isosig_tri_meaning_ok.
-Proof. exact isosig_tri_meaning_proof. Qed.
-Print Assumptions C44_isosig_tri_meaning.
-
-Theorem C44_isosig_pstrain_is_3D_restricted : isosig_pstrain_is_3D_restricted_ok.
-Proof. exact isosig_pstrain_is_3D_restricted_proof. Qed.
-Print Assumptions C44_isosig_pstrain_is_3D_restricted.
-
-Theorem C44_isosig_gps_is_3D_restricted : isosig_gps_is_3D_restricted_ok.
-Proof. exact isosig_gps_is_3D_restricted_proof. Qed.
-Print Assumptions C44_isosig_gps_is_3D_restricted.
-
-Theorem C44_isosig_axis_is_3D_restricted : isosig_axis_is_3D_restricted_ok.
-Proof. exact isosig_axis_is_3D_restricted_proof. Qed.
-Print Assumptions C44_isosig_axis_is_3D_restricted.
-
-Theorem C44_isosig_pstress_is_3D_restricted : isosig_pstress_is_3D_restricted_ok.
-Proof. exact isosig_pstress_is_3D_restricted_proof. Qed.
-Print Assumptions C44_isosig_pstress_is_3D_restricted.
-
-Theorem C44_isosig_agpstrain_is_3D_restricted : isosig_agpstrain_is_3D_restricted_ok.
-Proof. exact isosig_agpstrain_is_3D_restricted_proof. Qed.
-Print Assumptions C44_isosig_agpstrain_is_3D_restricted.
-
-Theorem C44_isosig_pstress_alt_szz : isosig_pstress_alt_szz_ok.
-Proof. exact isosig_pstress_alt_szz_proof. Qed.
-Print Assumptions C44_isosig_pstress_alt_szz.
-
-Theorem C44_isosig_pstress_alt_is_3D_condensed : isosig_pstress_alt_is_3D_condensed_ok.
-Proof. exact isosig_pstress_alt_is_3D_condensed_proof. Qed.
-Print Assumptions C44_isosig_pstress_alt_is_3D_condensed.
-
-Theorem C44_ortsig_pstrain_is_3D_restricted : ortsig_pstrain_is_3D_restricted_ok.
-Proof. exact ortsig_pstrain_is_3D_restricted_proof. Qed.
-Print Assumptions C44_ortsig_pstrain_is_3D_restricted.
-
-Theorem C44_ortsig_gps_is_3D_restricted : ortsig_gps_is_3D_restricted_ok.
-Proof. exact ortsig_gps_is_3D_restricted_proof. Qed.
-Print Assumptions C44_ortsig_gps_is_3D_restricted.
-
-Theorem C44_ortsig_axis_is_3D_restricted : ortsig_axis_is_3D_restricted_ok.
-Proof. exact ortsig_axis_is_3D_restricted_proof. Qed.
-Print Assumptions C44_ortsig_axis_is_3D_restricted.
-
-Theorem C44_ortsig_agpstrain_is_3D_restricted : ortsig_agpstrain_is_3D_restricted_ok.
-Proof. exact ortsig_agpstrain_is_3D_restricted_proof. Qed.
-Print Assumptions C44_ortsig_agpstrain_is_3D_restricted.
-
-Theorem C44_ortsig_pstress_alt_szz : ortsig_pstress_alt_szz_ok.
-Proof. exact ortsig_pstress_alt_szz_proof. Qed.
-Print Assumptions C44_ortsig_pstress_alt_szz.
-
-Theorem C44_ortsig_pstress_alt_pipe_szz : ortsig_pstress_alt_pipe_szz_ok.
-Proof. exact ortsig_pstress_alt_pipe_szz_proof. Qed.
-Print Assumptions C44_ortsig_pstress_alt_pipe_szz.
+Theorem C44_hooke_response_commutes_with_rotations :
+  hooke_tri_isotropic_ok /\
+  hooke_pstrain_isotropic_in_plane_ok.
+Proof.
+  exact (conj hooke_tri_isotropic_proof hooke_pstrain_isotropic_in_plane_proof).
+Qed.
+Print Assumptions C44_hooke_response_commutes_with_rotations.
 
